@@ -433,14 +433,23 @@ def infoSpan {μ : Type} (dec : Dec μ) (m : Bytes) : Nat :=
   | .ok i => i.consumed
   | .error _ => 0
 
+/-- is the piece a table definition message (read off its metadata-only decoding)?  Such a message is decoded in
+    full even when the filter rejects it (repair F25) -/
+def isDefMsg {μ : Type} (dec : Dec μ) (cfg : Cfg μ) (m : Bytes) : Bool :=
+  match dec true m with
+  | .ok i => cfg.tableDef i
+  | .error _ => false
+
+def isDefPiece {μ : Type} (dec : Dec μ) (cfg : Cfg μ) (p : Piece) : Bool := isDefMsg dec cfg p.msg
+
 def actFilter {μ : Type} (dec : Dec μ) (cfg : Cfg μ) (keep : Piece → Bool) (p : Piece) : Nat × Option (MsgInfo μ) :=
   if keep p then (p.msg.length, (dec cfg.infoOnly p.msg).toOption)
-  else (if cfg.infoOnly then p.msg.length else infoSpan dec p.msg, none)
+  else (if cfg.infoOnly then p.msg.length else if isDefPiece dec cfg p then p.msg.length else infoSpan dec p.msg, none)
 
 theorem behaves_filter {μ : Type} (dec : Dec μ) (cfg : Cfg μ) (pred : MsgInfo μ → Except Err Bool)
     (hf : cfg.filter = some pred) (hfr : Frame dec) (keep : Piece → Bool) (p : Piece)
     (hv : ValidMsg dec p.msg) (hpred : ∀ i, dec true p.msg = .ok i → pred i = .ok (keep p)) (hq : Quiet p.sep)
-    (hun : keep p = false → cfg.infoOnly = false →
+    (hun : keep p = false → cfg.infoOnly = false → isDefPiece dec cfg p = false →
       0 < infoSpan dec p.msg ∧ infoSpan dec p.msg ≤ p.msg.length ∧ Quiet (p.msg.drop (infoSpan dec p.msg) ++ p.sep)) :
     Behaves dec cfg (actFilter dec cfg keep) p := by
   obtain ⟨ii, hii, hdecl⟩ := hv.info
@@ -458,7 +467,7 @@ theorem behaves_filter {μ : Type} (dec : Dec μ) (cfg : Cfg μ) (pred : MsgInfo
       cases hb : cfg.infoOnly with
       | false =>
         simp only [step, tryBody, decodeHere, hf, h1, hp, hb, h2, hfi, hcons, take_length_append, Bool.not_false,
-          Bool.and_self, if_true, Bool.false_eq_true, if_false, Except.toOption, Option.map_some]
+          Bool.true_or, Bool.and_self, if_true, Bool.false_eq_true, if_false, Except.toOption, Option.map_some]
       | true =>
         simp only [step, tryBody, decodeHere, hf, h1, hp, hb, hii, hdecl, take_length_append, Bool.not_true,
           Bool.and_false, if_true, Bool.false_eq_true, if_false, Except.toOption, Option.map_some]
@@ -472,22 +481,36 @@ theorem behaves_filter {μ : Type} (dec : Dec μ) (cfg : Cfg μ) (pred : MsgInfo
       refine ⟨hv.starts, fun x => ?_, by rw [hact]; exact hv.pos, by rw [hact]; exact Nat.le_refl _, ?_⟩
       · rw [hact]
         have h1 := hfr true p.msg x ii hii
-        simp only [step, tryBody, decodeHere, hf, h1, hp, hb, hdecl, take_length_append, Bool.false_and,
+        simp only [step, tryBody, decodeHere, hf, h1, hp, hb, hdecl, take_length_append, Bool.not_true, Bool.and_false,
           if_true, Bool.false_eq_true, if_false, Option.map_none]
       · rw [hact]; simpa using hq
     | false =>
-      have hspan : infoSpan dec p.msg = ii.consumed := by simp only [infoSpan, hii]
-      have hact : actFilter dec cfg keep p = (ii.consumed, none) := by
-        simp only [actFilter, hk, hb, hspan, Bool.false_eq_true, if_false]
-      obtain ⟨u1, u2, u3⟩ := hun hk hb
-      rw [hspan] at u1 u2 u3
-      refine ⟨hv.starts, fun x => ?_, by rw [hact]; exact u1, by rw [hact]; exact u2, by rw [hact]; exact u3⟩
-      rw [hact]
-      have h1 := hfr true p.msg x ii hii
-      have hl : (List.take ii.consumed (p.msg ++ x)).length = ii.consumed := by
-        rw [List.length_take, List.length_append]; omega
-      simp only [step, tryBody, decodeHere, hf, h1, hp, hb, hl, Bool.false_and,
-        Bool.false_eq_true, if_false, Option.map_none]
+      have hdef : isDefPiece dec cfg p = cfg.tableDef ii := by simp only [isDefPiece, isDefMsg, hii]
+      cases htd : cfg.tableDef ii with
+      | true =>
+        -- a rejected table definition message: decoded in full, the whole message is skipped, nothing is yielded
+        have hact : actFilter dec cfg keep p = (p.msg.length, none) := by
+          simp only [actFilter, hk, hb, hdef, htd, if_true, Bool.false_eq_true, if_false]
+        refine ⟨hv.starts, fun x => ?_, by rw [hact]; exact hv.pos, by rw [hact]; exact Nat.le_refl _, ?_⟩
+        · rw [hact]
+          have h1 := hfr true p.msg x ii hii
+          have h2 := hfr false p.msg x fi hfi
+          simp only [step, tryBody, decodeHere, hf, h1, hp, hb, h2, htd, hcons, take_length_append, Bool.not_false,
+            Bool.false_or, Bool.and_self, if_true, Bool.false_eq_true, if_false, Option.map_none]
+        · rw [hact]; simpa using hq
+      | false =>
+        have hspan : infoSpan dec p.msg = ii.consumed := by simp only [infoSpan, hii]
+        have hact : actFilter dec cfg keep p = (ii.consumed, none) := by
+          simp only [actFilter, hk, hb, hdef, htd, hspan, Bool.false_eq_true, if_false]
+        obtain ⟨u1, u2, u3⟩ := hun hk hb (by rw [hdef, htd])
+        rw [hspan] at u1 u2 u3
+        refine ⟨hv.starts, fun x => ?_, by rw [hact]; exact u1, by rw [hact]; exact u2, by rw [hact]; exact u3⟩
+        rw [hact]
+        have h1 := hfr true p.msg x ii hii
+        have hl : (List.take ii.consumed (p.msg ++ x)).length = ii.consumed := by
+          rw [List.length_take, List.length_append]; omega
+        simp only [step, tryBody, decodeHere, hf, h1, hp, hb, hl, htd, Bool.false_or, Bool.false_and,
+          Bool.false_eq_true, if_false, Option.map_none]
 
 /-! ## damaged messages under continue-on-error -/
 
